@@ -6,6 +6,7 @@ import (
 	"fmt"
 	"go/ast"
 	"go/constant"
+	"go/token"
 	"go/types"
 	"os"
 	"path/filepath"
@@ -174,22 +175,55 @@ func (c *Ctx) ruleDocURL(prefixVals map[string]bool) {
 	}
 	docDir := filepath.Join(P.Root, "book/gogreement-docs/src")
 	covered := map[string]string{}
-	allInstrs(fn, func(b *ssa.BasicBlock, ins ssa.Instruction) {
-		r, ok := ins.(*ssa.Return)
-		if !ok || len(r.Results) != 1 {
-			return
-		}
-		d := P.Desc(r.Results[0])
-		m := regexp.MustCompile(`const\("([0-9a-z_]+)\.html"\)`).FindStringSubmatch(d)
-		if m == nil {
-			return
-		}
-		for _, l := range P.BlockGuards(b) {
-			if call := P.litCallTo(l, "strings.HasPrefix"); call != nil && l.Pos && call.Call.Args[0] == fn.Params[0] {
-				covered[constString(call.Call.Args[1])] = m[1]
+	codeD := P.Desc(fn.Params[0])
+	pageRx := regexp.MustCompile(`const\("([0-9a-z_]+)\.html"\)`)
+	// every way the result is put together: constants concatenated in the function itself, or the page name
+	// returned by a helper that is handed the code
+	var cases func(f *ssa.Function, pins pinMap, depth int)
+	cases = func(f *ssa.Function, pins pinMap, depth int) {
+		allInstrs(f, func(b *ssa.BasicBlock, ins ssa.Instruction) {
+			r, ok := ins.(*ssa.Return)
+			if !ok || len(r.Results) != 1 {
+				return
 			}
-		}
-	})
+			var parts []ssa.Value
+			var flat func(v ssa.Value)
+			flat = func(v ssa.Value) {
+				if bo, ok := v.(*ssa.BinOp); ok && bo.Op == token.ADD {
+					flat(bo.X)
+					flat(bo.Y)
+					return
+				}
+				parts = append(parts, v)
+			}
+			flat(r.Results[0])
+			P.PinnedAll(pins, func() {
+				for _, pv := range parts {
+					if call, ok := pv.(*ssa.Call); ok && depth < 3 {
+						callee := call.Call.StaticCallee()
+						if callee != nil && P.IsProductFunc(callee) && len(callee.Blocks) > 0 && pins[callee] == nil {
+							np := pinMap{callee: call}
+							for k, v := range pins {
+								np[k] = v
+							}
+							cases(callee, np, depth+1)
+							continue
+						}
+					}
+					m := pageRx.FindStringSubmatch(P.Desc(pv))
+					if m == nil {
+						continue
+					}
+					for _, l := range P.BlockGuards(b) {
+						if call := P.litCallTo(l, "strings.HasPrefix"); call != nil && l.Pos && P.Desc(call.Call.Args[0]) == codeD {
+							covered[constString(call.Call.Args[1])] = m[1]
+						}
+					}
+				}
+			})
+		})
+	}
+	cases(fn, nil, 0)
 	// table-driven form: for _, e := range <package-level table> { if HasPrefix(code, e.<prefix>) { return base + e.<page> } }
 	allInstrs(fn, func(b *ssa.BasicBlock, ins ssa.Instruction) {
 		r, ok := ins.(*ssa.Return)
